@@ -73,6 +73,11 @@ def run(out: Outcome) -> None:
         ref = sample(rng, rng.randint(2, 9), dim)
         kern = partial(rbf_kernel, sigma=sigma)
         det = MMDStreaming(window_size=w, kernel=kern, chunk_size=cs)
+        if rng.random() < 0.5:      # the detector was used on another reference before: reset(), then fit again
+            det.fit(X=sample(rng, rng.randint(2, 6), dim))
+            for _ in range(rng.randint(1, 2 * w)):
+                det.update(value=sample(rng, 1, dim)[0])
+            det.reset()
         det.fit(X=ref)
         stream = [sample(rng, 1, dim)[0] for _ in range(w + rng.randint(0, 8))]
         lines += [f"x sn {w} {'-' if cs is None else cs} {f2h(sigma)}", f"x sf {dim} " + " ".join(f2h(v) for v in ref.reshape(-1))]
